@@ -14,12 +14,15 @@ func init() {
 func runC11(c *core.Check) {
 	c.Rule = "every abstract value MC_C11 builds: strings = all class sequences of length <= MaxLen over 16 character classes (letters, space, NL/CR/TAB, quote, backslash, $ % { }, non-printable BMP and astral, multi-byte, combining) with seeded concrete representatives; 12 numbers incl. 30-digit, 1e100, 1e-20; bools; typed nulls; keywords and non-identifiers as words; wrapped in tuple/list/set/map/object with key strings incl. for/in/if/null/true. Each: TokensForValue, SetAttributeValue, block labels (AppendNewBlock/SetLabels + Labels()), TokensForTraversal round trips. TLC checks Unescape(Escape(s)) = s on the spec. Non-trivial = distinct concrete value"
 	c.Assumes = []string{"character classes have a handful of representatives each (seed picks one per class and run)", "strings are compared after cty's NFC normalisation of the original"}
-	consts := map[string]string{"MaxLen": "3", "MaxD": "1"}
+	cfgs := []map[string]string{{"MaxLen": "3", "MaxD": "1"}}
 	if c.Tier == "thorough" {
-		consts = map[string]string{"MaxLen": "4", "MaxD": "2"}
+		// longer strings in one wrapper, and short strings in two nested wrappers
+		cfgs = []map[string]string{{"MaxLen": "4", "MaxD": "1"}, {"MaxLen": "2", "MaxD": "2"}}
 	}
-	c.Extra["constants"] = consts
-	r := core.TLCRun{Module: "MC_C11", Consts: consts, Timeout: minutes(30)}
-	r.ConstSubst = map[string]string{"Alphabet": "Classes"}
-	streamTLC(c, r, func(st core.State) { c11.Handle(c, st) })
+	c.Extra["constants"] = cfgs
+	for _, consts := range cfgs {
+		r := core.TLCRun{Module: "MC_C11", Consts: consts, Timeout: minutes(40)}
+		r.ConstSubst = map[string]string{"Alphabet": "Classes"}
+		streamTLC(c, r, func(st core.State) { c11.Handle(c, st) })
+	}
 }
